@@ -162,7 +162,8 @@ def run(spec_path, cfg_path, workdir, workers="auto", timeout=1200, env=None, du
            or "java.lang." in res.out and "Exception" in res.out and res.violated is None
            or "Error: " in res.out and res.violated is None and not simulate)
     if bad and res.violated is None:
-        raise TlcError("TLC failed (rc=%s) on %s:\n%s" % (r.returncode, spec_path, res.out[-4000:]))
+        i = res.out.find("Error:")
+        raise TlcError("TLC failed (rc=%s) on %s:\n%s" % (r.returncode, spec_path, res.out[i:i + 3000] if i >= 0 else res.out[-4000:]))
     return res
 
 
